@@ -130,3 +130,12 @@ func Guard(f func()) (panicked string) {
 	f()
 	return ""
 }
+
+// EmitRaw writes an already serialised record.
+func (r *Recorder) EmitRaw(line string) {
+	r.mu.Lock()
+	r.w.WriteString(line)
+	r.w.WriteByte('\n')
+	r.N++
+	r.mu.Unlock()
+}
